@@ -254,4 +254,74 @@ theorem resolve_steps {d n : Node} {c : Ctx} {ss : List Sec} (hd : d.WF) (hcl : 
     rw [List.map_append, List.map_cons, List.map_nil, required_snoc, h1]
     simp [required, stepRes, h2]
 
+/-! ## A last section that names an anchor borne by several children -/
+
+theorem bindList_one {α : Type} : ∀ (l : List α), Gen.bindList Gen.one l = Gen.ofList l
+  | [] => rfl
+  | x :: xs => by
+    rw [Gen.bindList_cons, bindList_one xs]
+    simp [Gen.append, Gen.one, Gen.ofList]
+
+theorem go_mem (a : Str) (c : Ctx) : ∀ (items : List Node) (i0 j : Nat) (m : Node), items[j]? = some m →
+    ∃ c', (m, c') ∈ anchorKids.go a c items i0 ∧ c'.addr = c.addr ++ [.idx (i0 + j)]
+  | [], _, _, _, h => by simp at h
+  | x :: xs, i0, j, m, hj => by
+    cases j with
+    | zero =>
+      simp only [List.getElem?_cons_zero, Option.some.injEq] at hj
+      subst hj
+      exact ⟨c.child (.idx i0) (.idx i0) (anchorSection a), by simp [anchorKids.go], by simp [Ctx.child]⟩
+    | succ j' =>
+      simp only [List.getElem?_cons_succ] at hj
+      obtain ⟨c', h1, h2⟩ := go_mem a c xs (i0 + 1) j' m hj
+      refine ⟨c', by simp [anchorKids.go, h1], ?_⟩
+      rw [h2]; congr 3; omega
+
+/-- the child named by an anchor section is among the bearers of the anchor -/
+theorem bearer_mem {n m : Node} (c : Ctx) {r : Ref} {pr : PRef} {a : Str} (hc : n.child? r = some m)
+    (hp : prefOk n pr r) (hs : StepSec n m pr (.anc a)) :
+    ∃ c', (m, c') ∈ (anchorKids a n c).filter (fun nc => nc.1.anchor == some a) ∧
+      c'.addr = c.addr ++ [r] := by
+  cases hs with
+  | ancIdx i a' ha =>
+    cases n with
+    | seq an items =>
+      cases r with
+      | idx j =>
+        simp only [Node.child?] at hc
+        obtain ⟨c', h1, h2⟩ := go_mem a c items 0 j m hc
+        exact ⟨c', List.mem_filter.mpr ⟨by simpa [anchorKids] using h1, by simp [ha]⟩, by simpa using h2⟩
+      | _ => simp [prefOk] at hp
+    | _ => cases r <;> simp [prefOk] at hp
+  | ancKey k a' ha =>
+    cases n with
+    | map an es =>
+      cases r with
+      | key k' =>
+        simp only [prefOk] at hp
+        subst hp
+        simp only [Node.child?] at hc
+        refine ⟨c.child (.key k) (.key k) (anchorSection a), List.mem_filter.mpr ⟨?_, by simp [ha]⟩,
+          by simp [Ctx.child]⟩
+        simp only [anchorKids, List.mem_map]
+        exact ⟨(k, m), mem_of_lookup hc, rfl⟩
+      | _ => simp [prefOk] at hp
+    | _ => cases r <;> simp [prefOk] at hp
+
+/-- **Once per place it is aliased**: the segments of steps that end in an anchor section select
+exactly the children of the parent that bear the anchor, in document order. -/
+theorem resolve_steps_aliased {d n0 : Node} {c0 : Ctx} {ss0 : List Sec} (hd : d.WF)
+    (hcl : docClear d = true) (h : LocP d n0 c0 ss0) (hal : aloneAlong d c0.addr ss0 = true) (a : Str) :
+    ∃ c1, c1.addr = c0.addr ∧
+      required mt dsc d ((ss0 ++ [Sec.anc a]).map Sec.eseg) (.real (d, Ctx.root)) =
+        Gen.ofList (((anchorKids a n0 c1).filter (fun nc => nc.1.anchor == some a)).map Res.real) := by
+  obtain ⟨c1, h1, ha1⟩ := resolve_steps mt dsc hd hcl h hal
+  refine ⟨c1, ha1, ?_⟩
+  rw [List.map_append, List.map_cons, List.map_nil, required_snoc, h1, Gen.bind_one]
+  simp only [Sec.eseg, required, stepRes, stepSeg, anchorStep]
+  have : (Gen.ofList ((anchorKids a n0 c1).filter (fun nc => nc.1.anchor == some a))).map Res.real =
+      Gen.ofList (((anchorKids a n0 c1).filter (fun nc => nc.1.anchor == some a)).map Res.real) := rfl
+  rw [this, Gen.bind_ofList]
+  exact bindList_one _
+
 end Ypv.Acc
